@@ -31,6 +31,7 @@ EXPLANATION = ("a: in each forward loop, deleting the pass-edges of a gate (enab
                "d: decision tables of should_evaluate_rule, can_fire_rule, mark_rule_fired, set_focus, ActivationGroupManager::"
                "{can_fire,mark_fired,reset_cycle} and Rule::is_active_at equal the documented functions.")
 FLOORS = {"forward_loops": 2, "gates_per_loop": 6, "focus_paths": 4}
+EXPLANATION += " e: active_group == top(focus_stack), stack non-empty, at every exit of every function that writes either (abstract interpretation of push/pop/clear/other mutations per path, `len > k` guards and the None arm of last() tracked); only AgendaManager's own methods write them."
 
 AM = "engine::agenda::AgendaManager"
 AG = "engine::agenda::ActivationGroupManager"
